@@ -1,7 +1,7 @@
 """C03 — optimize() never changes what a model computes (kernel obligations; large assumed part)."""
 import re
 
-MODULES = ["contracts.c03_folding", "contracts.c04_process", "contracts.c05_rules", "contracts.c05_batchnorm"]
+MODULES = ["contracts.c03_folding", "contracts.c04_process", "contracts.c05_rules", "contracts.c05_batchnorm", "contracts.c05_basic"]
 
 
 def INCLUDE(name):
